@@ -1536,7 +1536,10 @@ class FuncAnalysis:
         dp, ud1 = self.map_roots(r.dp, callee, bound, nodes, "dp")
         u2, u3 = self.map_roots(r.ud, callee, bound, nodes, "dp")
         why = r.why or (f"returned by {callee.short}" if dp else "")
-        return AV(r.kind, sh, dp | sh, ud1 | u2 | u3, r.cls, why)
+        kind = r.kind
+        if callee.name == "parse_one_d" and kind in ("nd", "unk"):
+            kind = "seq"  # always a 1-D array: its elements are scalars (it may still be a view of the argument)
+        return AV(kind, sh, dp | sh, ud1 | u2 | u3, r.cls, why)
 
     def construct(self, cls: str, e: ast.Call, argv, kwv, env) -> AV:
         init = self.eng.method(cls, "__init__")
